@@ -253,7 +253,53 @@ func (w *World) registerHTTPEffects() {
 		e.hidden[fmt.Sprintf("query:%d", p.obj.id)] = a[1]
 		return nil
 	}
-	I["(*net/http.Request).ParseForm"] = func(e *Exec, fn *ssa.Function, a []Value) Value { return nilIface }
+	// verifSetPostForm(req, values): the request carries this urlencoded body
+	I["@verifSetPostForm"] = func(e *Exec, fn *ssa.Function, a []Value) Value {
+		p := a[0].(*Pointer)
+		e.hidden[fmt.Sprintf("postform:%d", p.obj.id)] = a[1]
+		return nil
+	}
+	// ParseForm: a preset Form is left alone; otherwise Form = body values (POST/PUT/PATCH
+	// only) followed by the URL query values, as net/http documents
+	I["(*net/http.Request).ParseForm"] = func(e *Exec, fn *ssa.Function, a []Value) Value {
+		p := a[0].(*Pointer)
+		fp := e.structField(p, "Form")
+		if cur, ok := e.load(fp).(*MapVal); ok && cur != nil && !cur.isNil {
+			return nilIface
+		}
+		e.objCounter++
+		m := &MapVal{id: e.objCounter, ktyp: types.Typ[types.String], vtyp: types.NewSlice(types.Typ[types.String])}
+		add := func(src *MapVal) {
+			for i, k := range src.keys {
+				vs := e.sliceElems(src.vals[i].(*SliceVal))
+				j := e.mapFind(m, k)
+				var ts []*Term
+				if j >= 0 {
+					for _, x := range e.sliceElems(m.vals[j].(*SliceVal)) {
+						ts = append(ts, x.(*Term))
+					}
+				}
+				for _, x := range vs {
+					ts = append(ts, x.(*Term))
+				}
+				e.mapUpdate(m, k, e.stringSlice(ts...))
+			}
+		}
+		if pf, ok := e.hidden[fmt.Sprintf("postform:%d", p.obj.id)].(*MapVal); ok {
+			method := e.load(e.structField(p, "Method")).(*Term)
+			if e.branch(mkOr(mkEq(method, mkStr("POST")), mkEq(method, mkStr("PUT")), mkEq(method, mkStr("PATCH")))) {
+				add(pf)
+			}
+		}
+		up, _ := e.load(e.structField(p, "URL")).(*Pointer)
+		if up != nil && !isNilPtr(up) {
+			if q, ok := I["(*net/url.URL).Query"](e, fn, []Value{up}).(*MapVal); ok {
+				add(q)
+			}
+		}
+		e.store(fp, m)
+		return nilIface
+	}
 	I["(*net/http.Request).FormValue"] = func(e *Exec, fn *ssa.Function, a []Value) Value {
 		p := a[0].(*Pointer)
 		m := e.load(e.structField(p, "Form")).(*MapVal)
